@@ -152,6 +152,33 @@ static void uspl(void) {
   free(s);
 }
 
+/* unew <caps> <bytes> : coap_new_uri (copy + coap_split_uri) and coap_clone_uri of the result */
+static void unew(void) {
+  size_t n;
+  uint8_t *s = exact_tok(vtok[2], &n);
+  coap_uri_t *u = coap_new_uri(s, (unsigned int)n);
+  free(s);          /* the copy must not depend on the caller's buffer */
+  if (!u) { puts("rc=-1"); return; }
+  coap_uri_t *c = coap_clone_uri(u);
+  printf("rc=0 sch=%d host=", (int)u->scheme);
+  full_hex(stdout, u->host.s, u->host.length);
+  printf(" port=%u path=", (unsigned)u->port);
+  full_hex(stdout, u->path.s, u->path.length);
+  fputs(" query=", stdout);
+  full_hex(stdout, u->query.s, u->query.length);
+  coap_delete_uri(u);
+  if (c) {
+    fputs(" clone=", stdout);
+    full_hex(stdout, c->host.s, c->host.length);
+    printf(":%u/", (unsigned)c->port);
+    full_hex(stdout, c->path.s, c->path.length);
+    fputs("?", stdout);
+    full_hex(stdout, c->query.s, c->query.length);
+    coap_delete_uri(c);
+  }
+  fputc('\n', stdout);
+}
+
 /* uinto <create_port_host> <dst address text | -> <bytes> : coap_split_uri + coap_uri_into_optlist */
 static void uinto(void) {
   int create = atoi(vtok[1]);
@@ -201,6 +228,7 @@ int main(void) {
     else if (!strcmp(vtok[0], "ucaps")) ucaps();
     else if (!strcmp(vtok[0], "uspl") && vntok == 4) uspl();
     else if (!strcmp(vtok[0], "uinto") && vntok == 4) uinto();
+    else if (!strcmp(vtok[0], "unew") && vntok == 3) unew();
     else puts("ERROR unknown command");
     fflush(stdout);
   }
